@@ -67,6 +67,9 @@ type obs struct {
 
 var billion = big.NewInt(1_000_000_000)
 
+// the module's own per-block pruning limit (a package variable the driver lowers for some cases)
+var defaultPruneLimit = twap.NumRecordsToPrunePerBlock
+
 // tstr: a time as (possibly negative, possibly > int64) unix nanoseconds; time.Time{} is -62135596800e9
 func tstr(t time.Time) string {
 	b := new(big.Int).Mul(big.NewInt(t.Unix()), billion)
@@ -319,7 +322,7 @@ func run(t *testing.T, c tcase) (o obs) {
 	if c.PruneLimit > 0 {
 		twap.NumRecordsToPrunePerBlock = c.PruneLimit
 	} else {
-		twap.NumRecordsToPrunePerBlock = 200
+		twap.NumRecordsToPrunePerBlock = defaultPruneLimit
 	}
 	h.Ctx = h.Ctx.WithBlockTime(tm(c.T0)).WithBlockHeight(h.Ctx.BlockHeight() + 1)
 	r.puti(h.Ctx.BlockHeight())
